@@ -624,6 +624,10 @@ func (r *chunkReader) Read(data []byte) (int, error) {
 	if r.lastChunk && r.rdr == nil {
 		return 0, io.EOF
 	}
+	if len(r.keys) == 0 {
+		// empty object: no leaf to read
+		return 0, io.EOF
+	}
 	for {
 		key := r.keys[r.idx]
 		if r.rdr == nil {
